@@ -327,3 +327,31 @@ pub fn trio_merge_scenario(name: &str, depth: usize, extra: &[Op]) -> Scenario {
     sc.alphabet.extend_from_slice(extra);
     sc
 }
+
+/// Two replicas after eleven commits by replica 0 (block indexes cross from one to two digits) that
+/// replica 1 has only partly received (it synced after the ninth).
+pub fn many_commits_scenario(name: &str, depth: usize, extra: &[Op]) -> Scenario {
+    let a = arr_docs();
+    let docs = vec![a[0].clone(), a[2].clone(), a[1].clone(), a[3].clone(), a[9].clone()];
+    let mut prologue = vec![];
+    for k in 0..11 {
+        prologue.push(Op::Upd(0, [0, 1, 2, 1][k % 4]));
+        prologue.push(Op::Commit(0, k % 3));
+        if k == 8 {
+            prologue.push(Op::Sync(1, 0));
+        }
+    }
+    let mut alphabet = vec![Op::Sync(1, 0), Op::Sync(0, 1), Op::Upd(1, 3), Op::Commit(1, 0), Op::Upd(0, 4), Op::Commit(0, 1), Op::Reopen(0), Op::Reopen(1)];
+    alphabet.extend_from_slice(extra);
+    Scenario {
+        name: name.to_string(),
+        nrep: 2,
+        menu: menu(docs),
+        prologue,
+        alphabet,
+        key_opts: KeyOpts::default(),
+        max_depth: depth,
+        track: false,
+        order: None,
+    }
+}
